@@ -234,8 +234,25 @@ def run(pid, tier, selftest, assumptions):
             if not st and r.get("ok") and "written" in r:
                 docs.append((t, False))
                 meta.append({"e": "value:" + c["type"], "pat": {"fam": "value", "cmt": c["cls"]}, "file_level_comment": False, "_result": r})
+    if pid in ("C01", "C02"):
+        # sequences of every length (0, 1, 3 items), and for the tables with a declared number of items also a declared number
+        # that is smaller than the number of items present (the declared number is a value like any other, nothing is cut off)
+        import re
+        for c in [c for c in pres.prints("CASE") if c["k"] == "seqlen"]:
+            t = pc.concretise(c)
+            variants = [("declared-as-generated", t)]
+            if c["n"] == 3 and c["e"] in ("COMPU_TAB", "COMPU_VTAB", "COMPU_VTAB_RANGE"):
+                for cnt in ("0", "1"):
+                    nth = 3 if c["e"] == "COMPU_VTAB_RANGE" else 4        # name, long identifier, (conversion type,) declared number
+                    m0 = re.search(r"/begin " + c["e"] + r"((?:\s+(?:\"[^\"]*\"|\S+)){" + str(nth - 1) + r"}\s+)(\S+)", t)
+                    if m0:
+                        variants.append((f"declared-{cnt}-of-3", t[:m0.start(2)] + cnt + t[m0.end(2):]))
+            for name, tv in variants:
+                docs.append((tv, False))
+                meta.append({"e": "seqlen:" + c["e"], "pat": {"fam": "seqlen", "cmt": f"{c['n']} items/{name}"}, "file_level_comment": False})
     results = pc.run_loads(binp, [d for d, m in zip(docs, meta) if "_result" not in m], pid, want=("write", "cycle", "file") if pid == "C01" else ("write", "cycle"))
-    results = results + [m.pop("_result") for m in meta if "_result" in m]
+    fresh = iter(results)
+    results = [m.pop("_result") if "_result" in m else next(fresh) for m in meta]
     events, idx = [], []
     nbad = 0
     for i, r in enumerate(results):
